@@ -828,9 +828,9 @@ def main(argv):
                 if v['sig'] in seen:
                     continue
                 seen.add(v['sig'])
-                print('VIOL', v['sig'], '|', v.get('detail', '')[:600])
+                print('VIOL idx=%s' % v.get('idx'), v['sig'], '|', v.get('detail', '')[:600])
                 if os.environ.get('VERIF_KEEP'):
-                    print('   replay:', write_replay('DBG', a.sim, v['sig'], v.get('detail', ''), v['scenario'], v.get('trace'), seed))
+                    print('   replay:', write_replay('DBG', a.sim, v['sig'], v.get('detail', ''), v['scenario'], v.get('trace'), seed, env={'VERIF_ORACLES': a.oracles} if a.oracles else None))
             for c in crashes[:3]:
                 print('CRASH', c['last'], c['rc'], c['stderr'][-3000:])
             return 1 if viols or crashes else 0
